@@ -25,6 +25,7 @@ EXPLANATION = (
     "that re-using an alias for another derived table does not merge their columns; R08.5 reading a table leaves the same trace in the "
     "graph whether or not it carries an alias (the DROP guard relies on it), so adding or removing an alias cannot change what a later "
     "DROP removes. Does not decide: clashes between derived tables sharing an alias in sibling scopes beyond identity (reported under C18)."
+    ' R08.6 the alias name is never picked at a child position where the grammar of the installed dialects allows the alias operator, the column list or a keyword (first / last child types computed from the grammar, minus the types the code filters out). R08.2 also covers look-ups written as a scan over the CTE collection.'
 )
 RULE_TEXT = "one obligation per alias-keyed dictionary look-up, per CTE look-up guard, per identity clause, per read-trace site"
 
@@ -207,7 +208,21 @@ def _alias_name_rule(ctx: Ctx) -> None:
             for c in e.generators[0].ifs:
                 for atom in (c.values if isinstance(c, ast.BoolOp) and isinstance(c.op, ast.And) else [c]):
                     if isinstance(atom, ast.Compare) and len(atom.ops) == 1 and u(atom.left) == f"{var}.type":
-                        val = prog.try_fold(atom.comparators[0], f.mod, f)
+                        cmp_ = atom.comparators[0]
+                        if isinstance(cmp_, ast.Name):
+                            # the excluded types held in a local that is chosen by the segment's type: take the alternative for an alias expression
+                            srcs_ = [getattr(node_, "value", None) for kind_, node_ in prog.local_defs(f, cmp_.id) if kind_ in ("assign", "walrus", "annassign")]
+                            picked = []
+                            for v in srcs_:
+                                if isinstance(v, ast.IfExp) and u(v.test) == f"{seg}.type == {T!r}":
+                                    picked.append(v.body)
+                                elif isinstance(v, ast.IfExp) and u(v.test) == f"{seg}.type != {T!r}":
+                                    picked.append(v.orelse)
+                                else:
+                                    picked.append(v)
+                            if len(picked) == 1:
+                                cmp_ = picked[0]
+                        val = prog.try_fold(cmp_, f.mod, f)
                         if isinstance(atom.ops[0], ast.NotEq) and isinstance(val, str):
                             drop.add(val)
                         elif isinstance(atom.ops[0], ast.NotIn) and isinstance(val, (tuple, list, set, frozenset)):
